@@ -87,6 +87,345 @@ type Term struct {
 	p1, p2 int
 	id     int
 	height int
+	ub     uint64 // conservative unsigned upper bound (valid when ubok; widths <= 64)
+	ubok   bool
+	ones   uint64 // bits that may be one (valid when onesok; widths <= 64)
+	onesok bool
+	slo    int64 // conservative signed interval (valid when sok; widths <= 64)
+	shi    int64
+	sok    bool
+}
+
+// maybeOnes returns the mask of bits of t that may be one.
+func maybeOnes(t *Term) uint64 {
+	w := t.sort.W
+	if w == 0 || w > 64 {
+		return ^uint64(0)
+	}
+	if t.op == OpConst {
+		return t.val
+	}
+	if t.onesok {
+		return t.ones
+	}
+	return mask(w)
+}
+
+func smear(x uint64) uint64 {
+	for i := uint(1); i < 64; i <<= 1 {
+		x |= x >> i
+	}
+	return x
+}
+
+func computeOnes(t *Term) {
+	w := t.sort.W
+	if w == 0 || w > 64 {
+		return
+	}
+	m := mask(w)
+	o := m
+	switch t.op {
+	case OpZExt:
+		o = maybeOnes(t.args[0])
+	case OpShl:
+		if t.args[1].IsConst() {
+			if k := t.args[1].val; k < 64 {
+				o = maybeOnes(t.args[0]) << k
+			} else {
+				o = 0
+			}
+		}
+	case OpLShr:
+		if t.args[1].IsConst() {
+			if k := t.args[1].val; k < 64 {
+				o = maybeOnes(t.args[0]) >> k
+			} else {
+				o = 0
+			}
+		}
+	case OpBAnd:
+		o = maybeOnes(t.args[0]) & maybeOnes(t.args[1])
+	case OpBOr, OpBXor:
+		o = maybeOnes(t.args[0]) | maybeOnes(t.args[1])
+	case OpIte:
+		o = maybeOnes(t.args[1]) | maybeOnes(t.args[2])
+	case OpExtract:
+		o = maybeOnes(t.args[0]) >> uint(t.p2)
+	case OpConcat:
+		if t.args[0].sort.W <= 64 && t.args[1].sort.W < 64 {
+			o = maybeOnes(t.args[0])<<uint(t.args[1].sort.W) | maybeOnes(t.args[1])
+		}
+	default:
+		if t.ubok {
+			o = smear(t.ub)
+		}
+	}
+	t.ones, t.onesok = o&m, true
+	if t.ubok && smear(t.ub) < t.ones {
+		t.ones &= smear(t.ub)
+	}
+	if t.ones < t.ub {
+		t.ub = t.ones
+	}
+}
+
+// disjointBits reports whether a and b can never have a one bit in the same position.
+func disjointBits(a, b *Term) bool {
+	if a.sort.W == 0 || a.sort.W > 64 {
+		return false
+	}
+	return maybeOnes(a)&maybeOnes(b) == 0
+}
+
+const narrowLimit = int64(1) << 40
+
+// srange returns a conservative signed interval of t, ok=false when unknown/full.
+func srange(t *Term) (int64, int64, bool) {
+	w := t.sort.W
+	if w == 0 || w > 64 {
+		return 0, 0, false
+	}
+	if t.op == OpConst {
+		v := sx(t.val, w)
+		return v, v, true
+	}
+	if t.sok {
+		return t.slo, t.shi, true
+	}
+	return 0, 0, false
+}
+
+func smallRange(lo, hi int64) bool { return lo > -narrowLimit && hi < narrowLimit }
+
+func computeSRange(t *Term) {
+	w := t.sort.W
+	if w < 2 || w > 64 {
+		return
+	}
+	wmin, wmax := int64(-1)<<uint(w-1), int64(1)<<uint(w-1)-1
+	if w == 64 {
+		wmin, wmax = -1<<63, 1<<63-1
+	}
+	set := func(lo, hi int64) {
+		if lo < wmin || hi > wmax || lo > hi || !smallRange(lo, hi) {
+			return
+		}
+		t.slo, t.shi, t.sok = lo, hi, true
+	}
+	arg := func(i int) (int64, int64, bool) {
+		lo, hi, ok := srange(t.args[i])
+		if ok && !smallRange(lo, hi) {
+			ok = false
+		}
+		return lo, hi, ok
+	}
+	switch t.op {
+	case OpZExt:
+		if u := upper(t.args[0]); u < uint64(narrowLimit) {
+			set(0, int64(u))
+		}
+	case OpSExt:
+		if lo, hi, ok := arg(0); ok {
+			set(lo, hi)
+		}
+	case OpAdd:
+		al, ah, ok1 := arg(0)
+		bl, bh, ok2 := arg(1)
+		if ok1 && ok2 {
+			set(al+bl, ah+bh)
+		}
+	case OpSub:
+		al, ah, ok1 := arg(0)
+		bl, bh, ok2 := arg(1)
+		if ok1 && ok2 {
+			set(al-bh, ah-bl)
+		}
+	case OpNeg:
+		if lo, hi, ok := arg(0); ok {
+			set(-hi, -lo)
+		}
+	case OpMul:
+		al, ah, ok1 := arg(0)
+		bl, bh, ok2 := arg(1)
+		if ok1 && ok2 && al > -(1<<20) && ah < 1<<20 && bl > -(1<<20) && bh < 1<<20 {
+			cands := []int64{al * bl, al * bh, ah * bl, ah * bh}
+			lo, hi := cands[0], cands[0]
+			for _, v := range cands {
+				if v < lo {
+					lo = v
+				}
+				if v > hi {
+					hi = v
+				}
+			}
+			set(lo, hi)
+		}
+	case OpAShr:
+		if lo, hi, ok := arg(0); ok && t.args[1].IsConst() {
+			k := t.args[1].val
+			if k > 63 {
+				k = 63
+			}
+			set(lo>>k, hi>>k)
+		}
+	case OpBAnd, OpBOr, OpBXor, OpBNot:
+		// bitwise ops of values that are sign-extensions of k+1 bits stay within k+1 bits
+		var m int64 = 1
+		for i := range t.args {
+			lo, hi, ok := arg(i)
+			if !ok {
+				return
+			}
+			for lo < -m || hi >= m {
+				m <<= 1
+			}
+		}
+		set(-m, m-1)
+	case OpIte:
+		al, ah, ok1 := arg(1)
+		bl, bh, ok2 := arg(2)
+		if ok1 && ok2 {
+			if bl < al {
+				al = bl
+			}
+			if bh > ah {
+				ah = bh
+			}
+			set(al, ah)
+		}
+	default:
+		if t.ubok && nonNeg(t) && t.ub < uint64(narrowLimit) {
+			set(0, int64(t.ub))
+		}
+	}
+	if !t.sok && t.ubok && nonNeg(t) && t.ub < uint64(narrowLimit) {
+		t.slo, t.shi, t.sok = 0, int64(t.ub), true
+	}
+}
+
+// fitsSigned reports whether t's signed interval fits in n bits.
+func fitsSigned(t *Term, n int) bool {
+	lo, hi, ok := srange(t)
+	if !ok {
+		return false
+	}
+	return lo >= -(int64(1)<<uint(n-1)) && hi < int64(1)<<uint(n-1)
+}
+
+// narrow returns the low n bits of t (n < width), pushing the truncation to the leaves.
+func (c *Ctx) narrow(t *Term, n int) *Term {
+	if t.sort.W <= n {
+		return t
+	}
+	return c.Extract(t, n-1, 0)
+}
+
+// upper returns a conservative unsigned upper bound of t (widths <= 64).
+func upper(t *Term) uint64 {
+	if t.sort.W == 0 || t.sort.W > 64 {
+		return ^uint64(0)
+	}
+	if t.op == OpConst {
+		return t.val
+	}
+	if t.ubok {
+		return t.ub
+	}
+	return mask(t.sort.W)
+}
+
+func computeUB(t *Term) {
+	w := t.sort.W
+	if w == 0 || w > 64 {
+		return
+	}
+	m := mask(w)
+	ub := m
+	switch t.op {
+	case OpZExt:
+		ub = upper(t.args[0])
+	case OpAdd:
+		a, b := upper(t.args[0]), upper(t.args[1])
+		if a+b >= a && a+b <= m {
+			ub = a + b
+		}
+	case OpMul:
+		a, b := upper(t.args[0]), upper(t.args[1])
+		if hi, lo := bits.Mul64(a, b); hi == 0 && lo <= m {
+			ub = lo
+		}
+	case OpBAnd:
+		a, b := upper(t.args[0]), upper(t.args[1])
+		if a < b {
+			ub = a
+		} else {
+			ub = b
+		}
+	case OpBOr, OpBXor:
+		a, b := upper(t.args[0]), upper(t.args[1])
+		x := a | b
+		// smallest all-ones value covering x
+		for i := uint(1); i < 64; i <<= 1 {
+			x |= x >> i
+		}
+		ub = x
+	case OpLShr:
+		a := upper(t.args[0])
+		if t.args[1].IsConst() && t.args[1].val < 64 {
+			ub = a >> t.args[1].val
+		} else {
+			ub = a
+		}
+	case OpUDiv:
+		a := upper(t.args[0])
+		if t.args[1].IsConst() && t.args[1].val != 0 {
+			ub = a / t.args[1].val
+		} else {
+			ub = m // division by zero gives all ones
+		}
+	case OpURem:
+		if t.args[1].IsConst() && t.args[1].val != 0 {
+			ub = t.args[1].val - 1
+			if a := upper(t.args[0]); a < ub {
+				ub = a
+			}
+		}
+	case OpIte:
+		a, b := upper(t.args[1]), upper(t.args[2])
+		if a > b {
+			ub = a
+		} else {
+			ub = b
+		}
+	case OpExtract:
+		if t.p2 == 0 {
+			if a := upper(t.args[0]); a <= m {
+				ub = a
+			}
+		}
+	case OpConcat:
+		// zero-extended style concats are rewritten to ZExt; nothing to do
+	}
+	if ub > m {
+		ub = m
+	}
+	t.ub, t.ubok = ub, true
+}
+
+func nonNeg(t *Term) bool {
+	w := t.sort.W
+	if w == 0 || w > 64 {
+		return false
+	}
+	return upper(t) < uint64(1)<<uint(w-1)
+}
+
+func isPow2(v uint64) (int, bool) {
+	if v == 0 || v&(v-1) != 0 {
+		return 0, false
+	}
+	return bits.TrailingZeros64(v), true
 }
 
 func (t *Term) IsConst() bool { return t.op == OpConst }
@@ -164,6 +503,9 @@ func (c *Ctx) intern(t *Term) *Term {
 		}
 	}
 	t.height = h
+	computeUB(t)
+	computeOnes(t)
+	computeSRange(t)
 	c.tab[k] = t
 	return t
 }
@@ -352,6 +694,13 @@ func (c *Ctx) Eq(a, b *Term) *Term {
 	}
 	if a.IsConst() && b.op == OpZExt {
 		return c.Eq(b, a)
+	}
+	if w := a.sort.W; w > 16 && w <= 64 {
+		for _, n := range []int{16, 32} {
+			if n < w && fitsSigned(a, n) && fitsSigned(b, n) {
+				return c.Eq(c.narrow(a, n), c.narrow(b, n))
+			}
+		}
 	}
 	if !a.IsConst() && (b.IsConst() || a.id > b.id) {
 		a, b = b, a
@@ -567,6 +916,29 @@ func (c *Ctx) BinBV(op Op, a, b *Term) *Term {
 				return a
 			}
 		}
+		// signed ops on provably non-negative operands are the unsigned ones
+		if (op == OpSDiv || op == OpSRem || op == OpAShr) && nonNeg(a) && (op == OpAShr || nonNeg(b)) {
+			switch op {
+			case OpSDiv:
+				return c.BinBV(OpUDiv, a, b)
+			case OpSRem:
+				return c.BinBV(OpURem, a, b)
+			default:
+				return c.BinBV(OpLShr, a, b)
+			}
+		}
+		if b.IsConst() {
+			if k, ok := isPow2(b.val); ok {
+				switch op {
+				case OpUDiv:
+					return c.BinBV(OpLShr, a, c.Const(w, uint64(k)))
+				case OpURem:
+					return c.BinBV(OpBAnd, a, c.Const(w, b.val-1))
+				case OpMul:
+					return c.BinBV(OpShl, a, c.Const(w, uint64(k)))
+				}
+			}
+		}
 		if op == OpSub && a == b {
 			return c.Const(w, 0)
 		}
@@ -610,6 +982,25 @@ func (c *Ctx) Cmp(op Op, a, b *Term) *Term {
 	}
 	if a == b {
 		return c.Bool(op == OpULe || op == OpSLe)
+	}
+	if w > 16 && w <= 64 {
+		// range-based narrowing: small signed values are compared at 16/32 bits
+		for _, n := range []int{16, 32} {
+			if n >= w {
+				break
+			}
+			if fitsSigned(a, n) && fitsSigned(b, n) {
+				sop := op
+				if op == OpULt && nonNeg(a) && nonNeg(b) {
+					sop = OpSLt
+				} else if op == OpULe && nonNeg(a) && nonNeg(b) {
+					sop = OpSLe
+				} else if op == OpULt || op == OpULe {
+					break
+				}
+				return c.Cmp(sop, c.narrow(a, n), c.narrow(b, n))
+			}
+		}
 	}
 	if w <= 64 {
 		// range facts for zero-extended operands against constants
@@ -750,6 +1141,51 @@ func (c *Ctx) Extract(a *Term, hi, lo int) *Term {
 	}
 	if a.op == OpZExt && lo >= a.args[0].sort.W {
 		return c.Const(w, 0)
+	}
+	if a.op == OpZExt && lo == 0 && hi >= a.args[0].sort.W {
+		return c.ZExt(a.args[0], hi+1)
+	}
+	if a.sort.W <= 64 && hi < a.sort.W-1 {
+		switch a.op {
+		case OpAdd, OpSub, OpMul, OpBAnd, OpBOr, OpBXor:
+			// low bits of these operations depend only on the low bits of the operands
+			n := hi + 1
+			r := c.BinBV(a.op, c.Extract(a.args[0], n-1, 0), c.Extract(a.args[1], n-1, 0))
+			return c.Extract(r, hi, lo)
+		case OpNeg:
+			return c.Extract(c.Neg(c.Extract(a.args[0], hi, 0)), hi, lo)
+		case OpBNot:
+			return c.Extract(c.BNot(c.Extract(a.args[0], hi, 0)), hi, lo)
+		case OpShl:
+			if a.args[1].IsConst() {
+				n := hi + 1
+				k := a.args[1].val
+				if k > uint64(n) {
+					k = uint64(n)
+				}
+				r := c.BinBV(OpShl, c.Extract(a.args[0], n-1, 0), c.Const(n, k))
+				return c.Extract(r, hi, lo)
+			}
+		case OpLShr:
+			if a.args[1].IsConst() && int(a.args[1].val)+hi < a.sort.W {
+				k := int(a.args[1].val)
+				return c.Extract(a.args[0], hi+k, lo+k)
+			}
+		case OpIte:
+			return c.Ite(a.args[0], c.Extract(a.args[1], hi, lo), c.Extract(a.args[2], hi, lo))
+		case OpAShr:
+			if lo == 0 && a.args[1].IsConst() && fitsSigned(a.args[0], hi+1) {
+				k := a.args[1].val
+				if k > uint64(hi) {
+					k = uint64(hi)
+				}
+				return c.BinBV(OpAShr, c.Extract(a.args[0], hi, 0), c.Const(hi+1, k))
+			}
+		case OpSExt:
+			if lo == 0 && hi+1 > a.args[0].sort.W {
+				return c.SExt(a.args[0], hi+1)
+			}
+		}
 	}
 	if a.op == OpConcat {
 		lw := a.args[1].sort.W
